@@ -493,6 +493,12 @@ def judge(o: Outcome, case, run, label, minimize, negate=False, faulted=False):
     # (a) objective faithful, in the user's sign
     if not (isinstance(r.objective, (int, float)) and r.objective == tv):
         o.violate(PROP, "objective_mismatch", f"{label}: reported objective {r.objective!r} but f(solution)={tv!r} at {r.solution!r}", **key)
+    if solver == "powell" and case["params"].get("bounds"):
+        # (e) for the one group-B solver that takes bounds: "bounded solvers return points inside their bounds"
+        for xi, (lo, hi) in zip(r.solution, case["params"]["bounds"]):
+            if not (lo <= xi <= hi):
+                o.violate(PROP, "out_of_bounds", f"{label}: solution {r.solution!r} outside bounds {case['params']['bounds']!r}", **key)
+                break
     if solver in GROUP_B:
         return
     # (b) at least as good as every evaluated point
